@@ -216,6 +216,31 @@ def corrupt_chunk(items):
     return out
 
 
+def ellipsis_keyword_records():
+    """per-repetition size keywords (vectors) under an ellipsis whose number of entries contradicts the tensor rank, and
+    scalar / nested variants: the call must be rejected with a documented class"""
+    out = []
+    x234 = np.ones((2, 3, 4))
+    x66 = np.ones((6, 6))
+    cases = [("id", ["a", " ", "b", "...", " ", "->", " ", "(", "a", " ", "b", "...", ")"], [x234], [{"b": [3, 4, 5]}, {"b": [3]}, {"b": (3, 4, 5, 6)}, {"b": np.array([[3, 4]])}]),
+             ("id", ["(", "a", " ", "b", ")", "...", " ", "->", " ", "a", "...", " ", "b", "..."], [x66], [{"b": (2,)}, {"b": (2, 3, 2)}, {"a": [3], "b": [2, 2]}, {"b": [[2, 3]]}]),
+             ("sum", ["a", " ", "[", "b", "]", "..."], [x234], [{"b": [3, 4, 5]}, {"b": (3,)}]),
+             ("add", ["a", " ", "b", "...", ",", " ", "b", "..."], [x234, np.ones((3, 4))], [{"b": (3, 4, 1)}, {"b": [3]}]),
+             ("softmax", ["a", " ", "[", "b", "...", "]"], [x234], [{"b": [3, 4, 5]}]),
+             ("solve_axes", ["a", " ", "b", "..."], [x234], [{"b": [3, 4, 5]}, {"b": (3,)}]),
+             ("matches", ["a", " ", "b", "..."], [x234], [{"b": [3, 4, 5]}])]
+    for entry, toks, tensors, kws in cases:
+        for kw in kws:
+            for backend in ("numpy", "numpy.numpylike"):
+                if entry in ("solve_axes", "matches") and backend != "numpy":
+                    continue
+                kw2 = dict(kw) if entry in ("solve_axes", "matches") else dict(kw, backend=backend)
+                o = call_entry(entry, "".join(toks), [t.copy() for t in tensors], kw2)
+                out.append({"toks": toks, "entry": entry + "@" + backend, "outcome": o, "edit": "keyword_vector_wrong_count", "shapes": [list(t.shape) for t in tensors],
+                            "kw": {k: str(v) for k, v in kw.items()}})
+    return out
+
+
 def validate(rep, recs, names, tag):
     d = common.workdir("c03")
     nsh = min(16, max(1, len(recs) // 3000))
@@ -226,7 +251,7 @@ def validate(rep, recs, names, tag):
         path = os.path.join(d, "%s_%d.ndjson" % (tag, i))
         with open(path, "w") as f:
             for r in shards[i]:
-                f.write(json.dumps({"toks": r["toks"], "entry": r["entry"], "outcome": r["outcome"], "edit": r["edit"]}) + "\n")
+                f.write(json.dumps({"toks": r["toks"], "entry": r["entry"], "op": r["entry"].split("@")[0], "outcome": r["outcome"], "edit": r["edit"]}) + "\n")
         cfg = common.write_cfg(os.path.join(d, "%s_%d.cfg" % (tag, i)), spec="Spec", constants={"NameToks": set(names), "NumToks": {"0", "1", "2", "3"}, "JunkToks": {"$"}}, constraints=["Chk"])
         return common.run_tlc(os.path.join(SPEC, "Errors.tla"), cfg, workers=1, env={"TRACE_FILE": path})
     with cf.ThreadPoolExecutor(nsh) as ex:
@@ -238,7 +263,7 @@ def validate(rep, recs, names, tag):
             raise common.MachineryError("Errors.tla consumed %d of %d records\n%s" % (res.distinct, len(shards[i]), res.out[-2000:]))
         flagged = set()
         for line in res.out.splitlines():
-            for t in ("INTERNAL", "NOTSYNTAX", "COMPUTED", "FALSESYNTAX"):
+            for t in ("INTERNAL", "NOTSYNTAX", "COMPUTED", "FALSESYNTAX", "BRACKETRULE"):
                 if line.startswith('<<"%s"' % t):
                     n = int(line.strip("<>").split(", ")[1])
                     bad.append((t, shards[i][n - 1]))
@@ -279,6 +304,7 @@ def run(tier):
     cases = [c for i, c in enumerate(cases) if i % keep.get(c["fam"], 1) == 0]
     items = [{"case": c, "op": OPS[c["fam"]][i % len(OPS[c["fam"]])], "seed": common.seed() * 5 + i} for i, c in enumerate(cases)]
     crecs = common.parallel_map("corrupt_chunk", sys.modules[__name__], items)
+    crecs += ellipsis_keyword_records()
     allr = [("strings", recs, NAMES), ("random", rrecs, rnames), ("corrupt", crecs, ["a", "b", "c", "d", "h", "w", "z"])]
     for tag, rs, names in allr:
         rep.evaluations += len(rs)
@@ -293,7 +319,8 @@ def run(tier):
             rep.violation(sig, {"record": r},
                           "einx.%s(%r%s) [%s]: outcome %s - %s" % (r["entry"], desc, (", shapes=%s, %s" % (r.get("shapes"), r.get("kw"))) if "shapes" in r else "", r["edit"], r["outcome"],
                                                                   {"INTERNAL": "not a documented exception class", "NOTSYNTAX": "Parse.tla rejects the description but the call did not end in einx.errors.SyntaxError",
-                                                                   "COMPUTED": "the tensors contradict the description but the call was not rejected", "FALSESYNTAX": "a well-formed call raised SyntaxError"}[t]))
+                                                                   "COMPUTED": "the tensors contradict the description but the call was not rejected", "FALSESYNTAX": "a well-formed call raised SyntaxError",
+                                                                   "BRACKETRULE": "the description breaks the operation's bracket rule (decided on Parse.tla's tree) but the call was not rejected"}[t]))
     ex = [r for r in crecs if r["edit"] == "dim_changed"][:1] + [r for r in recs if r["outcome"] == "SyntaxError"][:1] + [r for r in crecs if r["edit"] == "bracket_toggled"][:1]
     for r in ex:
         rep.sample({"entry": r["entry"], "description": "".join(r["toks"]), "edit": r["edit"], "outcome": r["outcome"], "shapes": r.get("shapes")})
